@@ -317,7 +317,7 @@ func (x *Exec) tryReplay(o *Obligation, model map[string]string) replayResult {
 		}
 		in := inByName[p.Name()]
 		mv, have := model[in.Sym]
-		bt, isBasic := pt.Underlying().(*types.Basic)
+		bt, isBasic := under(pt).(*types.Basic)
 		if !isBasic {
 			return replayResult{Summary: fmt.Sprintf("replay harness cannot build parameter %s of type %s; no failing input found", name, pt)}
 		}
